@@ -1049,6 +1049,7 @@ class Compiler:
         self._aliases = [{}]
         self._macros = []
         self._current_slot = []
+        self._cache_depth = {}
 
         # Prepare stream factory (callable)
         self._new_list = (
@@ -1775,6 +1776,7 @@ class Compiler:
 
             body += self._engine(expression, target)
             self._expression_cache[expression] = target
+            self._cache_depth[name] = len(self._current_slot)
 
         body += self.visit(node.node)
 
@@ -1787,6 +1789,10 @@ class Compiler:
             assert self._expression_cache.get(expression) is not None
             name = identifier("cache", id(expression))
             target = store(name)
+            if self._cache_depth.get(name, 0) < len(self._current_slot):
+                # The value is held by the function around this slot
+                # filler (declared where the filler begins).
+                self._current_slot[-1][2].add(name)
             body += self._engine(node.value, target)
 
         body += self.visit(node.node)
@@ -1903,7 +1909,8 @@ class Compiler:
             key = "__slot_%s" % mangle(slot.name)
             fun = "__fill_%s" % mangle(slot.name)
 
-            self._current_slot.append((slot.name, len(self._translations)))
+            self._current_slot.append(
+                (slot.name, len(self._translations), set()))
 
             # The conversion helpers look up the translation settings
             # in the enclosing function; the filler has its own. It
@@ -1914,7 +1921,10 @@ class Compiler:
                 emit_func_convert_and_escape("__quote") + \
                 self.visit_Context(slot)
 
-            assert self._current_slot.pop()[0] == slot.name
+            name, _, rebound = self._current_slot.pop()
+            assert name == slot.name
+            if rebound:
+                body.insert(0, ast.Nonlocal(sorted(rebound)))
 
             callbacks.append(
                 ast.FunctionDef(
